@@ -5,6 +5,7 @@ import (
 	"go/token"
 	"go/types"
 	"os"
+	"sort"
 	"strings"
 
 	"golang.org/x/tools/go/ssa"
@@ -754,7 +755,29 @@ func (x *Run) enterLoopHeader(fr *Frame, from, to *ssa.BasicBlock, st *State, lp
 	}
 	x.evalPhis(fr, from, to, st)
 	if fr.cut[to] {
-		// back edge: invariant preservation, then the path ends
+		// back edge: the mutexes held are those held when the loop was entered (a
+		// lock taken in the body and not released on some path to the next
+		// iteration deadlocks that iteration)
+		if !fr.inPure() && !fr.inSpec() {
+			var leaked []string
+			h0 := fr.loopHeld[to]
+			for k, m := range st.held {
+				if m != 0 && h0[k] == 0 {
+					if n := lockNameOf(x, k); n != "" {
+						leaked = append(leaked, n)
+					} else {
+						leaked = append(leaked, k)
+					}
+				}
+			}
+			sort.Strings(leaked)
+			goal := "true"
+			if len(leaked) > 0 {
+				goal = "false"
+			}
+			x.oblige(st, fmt.Sprintf("lock.%s.loop#%d.balanced", x.fnShort(fr.fn), lp.ordinal), "lock", goal, lp.header.Instrs[0].Pos(), "mutex still held at the end of a loop iteration: "+strings.Join(leaked, " "))
+		}
+		// invariant preservation, then the path ends
 		if ann != nil && ann.Inv != nil {
 			x.checkLoopInv(fr, st, lp, ann, "preserve")
 		}
@@ -915,6 +938,16 @@ func (x *Run) enterLoopHeader(fr *Frame, from, to *ssa.BasicBlock, st *State, lp
 		fr.loopHead[to] = hv
 	}
 	fr.cut[to] = true
+	lh := make(map[*ssa.BasicBlock]map[string]int, len(fr.loopHeld)+1) // frames are cloned shallowly: copy on write
+	for k, v := range fr.loopHeld {
+		lh[k] = v
+	}
+	h0 := map[string]int{}
+	for k, m := range st.held {
+		h0[k] = m
+	}
+	lh[to] = h0
+	fr.loopHeld = lh
 	st.events = append(st.events, Event{Name: fmt.Sprintf("loop:%s#%d", fr.fn.String(), lp.ordinal), Ret: Val{T: intLit(int64(st.nfresh)), S: SInt}})
 	st.trace = append(st.trace, fmt.Sprintf("loop%d", lp.ordinal))
 	return x.runBlock(fr, to, x.firstNonPhi(to), st)
